@@ -8,94 +8,10 @@
   field handed to the progress callback — is computed by the model and printed, and must equal
   what the real solver produced, bit for bit.
 -/
-import Std.Data.HashMap
-import Alpaqa.Model.Proto
+import Driver.ReplayCommon
 import Alpaqa.Model.Panoc
 
-open Alpaqa Alpaqa.Proto Alpaqa.Gen
-
-abbrev KV := Std.HashMap String String
-
-def parseKV (ts : List String) : KV :=
-  ts.foldl (fun m t =>
-    match t.splitOn "=" with
-    | [k, v] => m.insert k v
-    | [k] => m.insert "_op" k
-    | _ => m) {}
-
-def kvNat (m : KV) (k : String) (d : Nat := 0) : Nat := ((m.get? k).bind String.toNat?).getD d
-def kvFlt (m : KV) (k : String) (d : Float) : Float := ((m.get? k).bind parseF?).getD d
-def kvVec (m : KV) (k : String) : List Float :=
-  match m.get? k with
-  | none => []
-  | some s =>
-    match s.splitOn ":" with
-    | [n, rest] =>
-      if n.toNat?.getD 0 == 0 then [] else
-      (rest.splitOn ",").map fun t => if t == "nan" then (0.0/0.0) else (parseF? t).getD (0.0/0.0)
-    | _ => []
-
-/-- One recorded event: name and the raw tokens after it. -/
-structure Ev where
-  name : String
-  toks : List String
-  deriving Inhabited
-
-def splitSections (s : String) : List (List String) :=
-  (s.splitOn " ; ").map tokens |>.filter (· ≠ [])
-
-/-- Split `toks` into (first `k` "items", rest) where an item is a scalar token or a vector
-    `n t1 … tn`, according to the shape string: 's' scalar, 'v' vector, 'b' flag. -/
-def takeShape : List Char → List String → Option (List (List String) × List String)
-  | [], ts => some ([], ts)
-  | 'v' :: sh, n :: ts =>
-    match n.toNat? with
-    | none => none
-    | some k =>
-      if ts.length < k then none else
-      (takeShape sh (ts.drop k)).map fun (r, rest) => ((n :: ts.take k) :: r, rest)
-  | _ :: sh, t :: ts => (takeShape sh ts).map fun (r, rest) => ([t] :: r, rest)
-  | _, [] => none
-
-def vecOfToks (ts : List String) : List Float :=
-  (ts.drop 1).map fun t => if t == "nan" then (0.0/0.0) else (parseF? t).getD (0.0/0.0)
-def fltOfToks (ts : List String) : Float :=
-  match ts with
-  | [t] => if t == "nan" then (0.0/0.0) else (parseF? t).getD (0.0/0.0)
-  | _ => 0.0/0.0
-
-def keyOf (name : String) (items : List (List String)) : String :=
-  name ++ "|" ++ String.intercalate "|" (items.map (String.intercalate " "))
-
-/-- argument shape / result shape of each problem event -/
-def probShapes : String → Option (String × String)
-  | "psigradpsi" => some ("v", "svv")
-  | "psi" => some ("v", "sv")
-  | "gradpsi" => some ("v", "v")
-  | "gradL" => some ("vv", "v")
-  | "prox" => some ("svv", "svv")
-  | _ => none
-
-abbrev Table := Std.HashMap String (List (List String))
-
-def buildTable (evs : List Ev) : Table :=
-  evs.foldl (fun m e =>
-    match probShapes e.name with
-    | none => m
-    | some (a, r) =>
-      match takeShape a.toList e.toks with
-      | none => m
-      | some (args, rest) =>
-        match takeShape r.toList rest with
-        | none => m
-        | some (res, _) => m.insert (keyOf e.name args) res) {}
-
-def vTok (v : List Float) : List String := toString v.length :: v.map fmtF
-
-def nanV (n : Nat) : List Float := List.replicate n (0.0/0.0)
-
-def lookup (t : Table) (name : String) (args : List (List String)) : Option (List (List String)) :=
-  t.get? (keyOf name args)
+open Alpaqa Alpaqa.Proto Alpaqa.Gen Alpaqa.Replay
 
 def mkProblem (t : Table) (n m : Nat) : Panoc.Problem Float where
   psiGradPsi x := match lookup t "psigradpsi" [vTok x] with
@@ -113,28 +29,6 @@ def mkProblem (t : Table) (n m : Nat) : Panoc.Problem Float where
   prox g x gr := match lookup t "prox" [[fmtF g], vTok x, vTok gr] with
     | some [a, b, c] => (fltOfToks a, vecOfToks b, vecOfToks c)
     | _ => (0.0/0.0, nanV n, nanV n)
-
-/-- Direction replay state: remaining direction events, first mismatch. -/
-structure DirSt where
-  evs : List Ev
-  bad : Option String := none
-
-def popDir (d : DirSt) (name : String) (argShape resShape : String) (args : List (List String)) :
-    DirSt × List (List String) :=
-  match d.evs with
-  | [] => ({ d with bad := d.bad <|> some s!"direction trace exhausted at {name}" }, [])
-  | e :: rest =>
-    if e.name != name then
-      ({ evs := rest, bad := d.bad <|> some s!"model calls {name}, real solver called {e.name}" }, [])
-    else
-      match takeShape argShape.toList e.toks with
-      | none => ({ evs := rest, bad := d.bad <|> some s!"unparsable {name}" }, [])
-      | some (a, r) =>
-        let bad := if a == args then d.bad else
-          d.bad <|> some s!"{name}: arguments differ (model {keyOf "" args} vs real {keyOf "" a})"
-        match takeShape resShape.toList r with
-        | none => ({ evs := rest, bad := bad }, [])
-        | some (res, _) => ({ evs := rest, bad := bad }, res)
 
 def mkDirection (n : Nat) : Panoc.Direction DirSt Float where
   init d g x xh p gr := (popDir d "dinit" "svvvv" "" [[fmtF g], vTok x, vTok xh, vTok p, vTok gr]).1
